@@ -37,6 +37,8 @@ thread_local! { pub static LAST_PANIC: std::cell::RefCell<String> = std::cell::R
 pub fn last_panic() -> String { LAST_PANIC.with(|p| p.borrow().clone()) }
 mod codec;
 mod gen_login;
+mod chunk;
+mod gen_login_async;
 
 pub fn hex(b: &[u8]) -> String {
     let mut s = String::with_capacity(b.len() * 2);
@@ -82,6 +84,7 @@ fn handle(ws: &[&str]) -> String {
         }
         ["eseq", exp, dir, api, key, msgs] => enc::eseq(exp, dir, api, key, msgs),
         ["cipherlaw", exp, key, data] => enc::cipherlaw(exp, key, data),
+        ["chunk", lib, dir, sched] => chunk::chunk(lib, dir, sched),
         ["codec", lib, dir, hex] => codec::codec(lib, dir, hex),
         ["dec", lib, dir, hex] => {
             let Some(bytes) = unhex(hex) else { return "bad-op".into() };
